@@ -408,7 +408,7 @@ def pair_oracle(ops, linked, r):
 # ------------------------------------------------------------------------------------------------
 # SOCKS parser against stub transport
 
-def run_socks(chunks):
+def run_socks(chunks, eof=False):
     import ipaddress
     from asyncssh.socks import SSHSOCKSForwarder
     sock = StubSock('S')
@@ -440,7 +440,19 @@ def run_socks(chunks):
         resid = bytes(f._inpbuf)
     except Exception:
         resid = None
-    return {'req': req, 'out': [e for e in sock.log if e[0] in ('w', 'close')], 'crashed': crashed,
+    eof_obs = None
+    if eof:
+        # the client half-closes now (only deliverable if the transport is still open)
+        if sock.closed or crashed:
+            eof_obs = (False, False, True)
+        else:
+            try:
+                keep = bool(f.eof_received())
+            except Exception as e:
+                crashed = type(e).__name__
+                keep = False
+            eof_obs = (True, keep, ('close',) in sock.log)
+    return {'eof': eof_obs, 'req': req, 'out': [e for e in sock.log if e[0] in ('w', 'close')], 'crashed': crashed,
             'resid': resid, 'ncalls': len(calls)}
 
 
